@@ -37,6 +37,17 @@ fn special_images(v: &dyn Var, rng: &mut Rng) -> Vec<Vec<u8>> {
     for _ in 0..3 {
         out.push(image(v, rng));
     }
+    // uniform images (every byte the same) with unequal nibbles
+    for x in [0x1bu8, 0xe4, 0x5a, 0x07, rng.byte()] {
+        let mut u = vec![x; n];
+        if STRICT {
+            if v.nb() == 48 {
+                u[0] %= 49;
+            }
+            u[v.ck_len()] %= 170;
+        }
+        out.push(u);
+    }
     out
 }
 
@@ -102,6 +113,7 @@ fn emit_fmt(out: &mut Out, v: &dyn Var, img: &[u8]) {
     };
     let d = h.display();
     let t = h.to_string_();
+    let dw = h.display_spec();
     let conv_allocs = d.a + t.a;
     let conv_panic = if d.p.is_empty() { t.p.clone() } else { d.p.clone() };
     let mut b1 = vec![0u8; v.len_str()];
@@ -135,6 +147,7 @@ fn emit_fmt(out: &mut Out, v: &dyn Var, img: &[u8]) {
             .bytes("h", img)
             .bytes("display", d.v.unwrap_or_default().as_bytes())
             .bytes("tostring", t.v.unwrap_or_default().as_bytes())
+            .raw("display_spec", &format!("[{}]", dw.v.unwrap_or_default().iter().map(|x| bytes_json(x.as_bytes())).collect::<Vec<_>>().join(",")))
             .bytes("hexp", &b1)
             .bytes("hex", &b2)
             .bytes("bytes", &b3)
@@ -404,6 +417,32 @@ pub fn run_c04(out: &mut Out, rng: &mut Rng, thorough: bool, only: Option<&str>)
             }
         }
     });
+    each_variant(only, |v| {
+        let canon = hex_of(v, &image(v, rng), true);
+        // a relation between the two prefix bytes: both changed by the same / different xor values
+        for k in 1..=255u8 {
+            if !thorough && k % 4 != 1 && k != 0x20 && k != 0x65 {
+                continue;
+            }
+            let mut s = canon.clone();
+            s[0] ^= k;
+            s[1] ^= k;
+            emit_parse(out, v, "bytes", "None", &s);
+            emit_parse(out, v, "bytes", "WithVersion", &s);
+            let mut s = canon.clone();
+            s.swap(0, 1);
+            s[0] ^= k & 1;
+            emit_parse(out, v, "bytes", "None", &s);
+        }
+        // every truncation / extension of a prefixed and of a bare text, in auto-detect mode
+        for base in [canon.clone(), hex_of(v, &image(v, rng), false)] {
+            for cut in 0..=(base.len() + 2) {
+                let mut s = base.clone();
+                s.resize(cut, b'0');
+                emit_parse(out, v, "bytes", "None", &s);
+            }
+        }
+    });
     // canonical form rests on the digit decoders / encoders of this build
     stage_matrices(out);
 }
@@ -645,12 +684,20 @@ pub fn run_c14(out: &mut Out, rng: &mut Rng, thorough: bool, only: Option<&str>)
                     continue;
                 }
                 let pre = rng.bytes(l);
-                let mut buf = pre.clone();
-                let r = match form {
-                    "bytes" => h.store_bytes(&mut buf),
-                    "hex" => h.store_str(&mut buf, false),
-                    _ => h.store_str(&mut buf, true),
+                // the destination starts at a varying offset of its backing storage (alignment 1..8)
+                let shift = l % 8;
+                let mut backing = vec![0u8; l + 8];
+                backing[shift..shift + l].copy_from_slice(&pre);
+                let r = {
+                    let dst = &mut backing[shift..shift + l];
+                    match form {
+                        "bytes" => h.store_bytes(dst),
+                        "hex" => h.store_str(dst, false),
+                        _ => h.store_str(dst, true),
+                    }
                 };
+                let buf = backing[shift..shift + l].to_vec();
+                let outside_ok = backing[..shift].iter().all(|&b| b == 0) && backing[shift + l..].iter().all(|&b| b == 0);
                 let rj = match r.v.clone().unwrap_or(Err("PANIC".into())) {
                     Ok(k) => format!("{{\"ok\":true,\"n\":{},\"err\":\"\"}}", k),
                     Err(e) => format!("{{\"ok\":false,\"n\":0,\"err\":\"{}\"}}", e),
@@ -664,6 +711,8 @@ pub fn run_c14(out: &mut Out, rng: &mut Rng, thorough: bool, only: Option<&str>)
                         .bytes("pre", &pre)
                         .raw("r", &rj)
                         .bytes("post", &buf)
+                        .boolean("outside_ok", outside_ok)
+                        .num("shift", shift as i64)
                         .meas(r.a, &r.p),
                 );
             }
@@ -833,6 +882,25 @@ pub fn run_c13(out: &mut Out, rng: &mut Rng, thorough: bool, only: Option<&str>)
                 }
             }
         }
+        // aliasing: the two operands are views of ONE buffer (same start address, different lengths;
+        // overlapping; identical)
+        {
+            let img = image(v, rng);
+            let canon = String::from_utf8(hex_of(v, &img, true)).unwrap();
+            let line = format!("{}{}", canon, &canon[2..]);
+            let n = canon.len();
+            for (l, r) in [
+                (&line[..n], &line[..]),
+                (&line[..n], &line[..n - 1]),
+                (&line[..n], &line[..n]),
+                (&line[..], &line[..n]),
+                (&line[2..n], &line[..n]),
+                (&line[..n], &line[2..n]),
+                (&line[..n - 2], &line[..n]),
+            ] {
+                emit_cmpstr_str(out, v, l, r);
+            }
+        }
         if v.name() == "Normal" {
             for cl in 0..10u64 {
                 let l = mk(rng, cl);
@@ -846,6 +914,18 @@ pub fn run_c13(out: &mut Out, rng: &mut Rng, thorough: bool, only: Option<&str>)
 #[cfg(feature = "easy")]
 fn emit_cmpstr(out: &mut Out, v: &dyn Var, l: &[u8], r: &[u8], plain: bool) {
     let (ls, rs) = (std::str::from_utf8(l).unwrap(), std::str::from_utf8(r).unwrap());
+    emit_cmpstr_views(out, v, ls, rs, plain)
+}
+
+/// the operands are passed exactly as given (possibly views of one buffer)
+#[cfg(feature = "easy")]
+fn emit_cmpstr_str(out: &mut Out, v: &dyn Var, ls: &str, rs: &str) {
+    emit_cmpstr_views(out, v, ls, rs, false)
+}
+
+#[cfg(feature = "easy")]
+fn emit_cmpstr_views(out: &mut Out, v: &dyn Var, ls: &str, rs: &str, plain: bool) {
+    let (l, r) = (ls.as_bytes(), rs.as_bytes());
     let o = if plain {
         // tlsh::compare (the Normal variant only)
         obs(|| tlsh::compare(ls, rs)).map(|r| r.map_err(|e| (format!("{:?}", e.side()), format!("{:?}", e.inner_err()))))
